@@ -207,6 +207,12 @@ Exec(st, S) ==
                          ELSE IF Expect(r.S, "cm_exit", Str(st.k))
                               THEN R2(Adv(r.S), IF st.sup /\ r.comp.c = "exc" THEN Norm ELSE r.comp)   \* a manager may swallow the exception
                               ELSE R2(r.S, Drift("cm_exit"))
+    [] st.s = "match" ->      \* match (E(k1), E(k2)): case (a, b): body  - the capture patterns bind a, then b
+         LET r1 == Eval([e |-> "site", k |-> st.k1], S) IN
+         IF ~IsNorm(r1) THEN R2(r1.S, r1.comp)
+         ELSE LET r2 == Eval([e |-> "site", k |-> st.k2], r1.S) IN
+              IF ~IsNorm(r2) THEN R2(r2.S, r2.comp)
+              ELSE LET b == Binds(r2.S, <<st.a, st.b>>) IN IF ~IsNorm(b) THEN b ELSE Block(st.body, 1, b.S)
     [] st.s \in {"import", "from"} ->
          Binds(S, << IF st.as # "" THEN st.as ELSE IF st.s = "from" THEN st.name ELSE st.first >>)
     [] st.s = "return" ->      \* the value event belongs to the return statement (inside the loop brackets it leaves)
